@@ -4,6 +4,7 @@ import json, os, shutil, subprocess, sys
 VERIF = os.path.dirname(os.path.dirname(os.path.abspath(__file__)))
 prop = sys.argv[1]
 src = sys.argv[2] if len(sys.argv) > 2 else '/tmp/seed/%s/out' % prop
+tag = sys.argv[3] if len(sys.argv) > 3 else ''
 dirs = sorted(os.path.join(src, d) for d in os.listdir(src) if os.path.exists(os.path.join(src, d, 'patch.diff')))
 p = subprocess.run([sys.executable, os.path.join(VERIF, 'harness', 'seedtest.py'), prop] + dirs, capture_output=True, text=True)
 print(p.stderr[-500:])
@@ -17,7 +18,7 @@ for line in p.stdout.splitlines():
     print('%s-%s confirmed=%s detected=%s failing_input=%s | %s' % (prop, k, confirmed, r.get('detected'), r.get('with_failing_input'), r.get('summary', r.get('status'))))
     if not confirmed:
         continue
-    dst = os.path.join(VERIF, 'seeded', '%s-%s' % (prop, k))
+    dst = os.path.join(VERIF, 'seeded', '%s-%s%s' % (prop, tag, k))
     os.makedirs(dst, exist_ok=True)
     for f in ('patch.diff', 'demo.py'):
         shutil.copy(os.path.join(r['dir'], f), dst)
